@@ -119,7 +119,7 @@ structure Dev where
   `BytesAs` says; only a `[]byte` that reaches the type switch of `appendJSON` (top level, held by
   an interface) follows `BytesAs` -/
   bytesAsSlice : Bool
-  /-- C15-nil-embedded-pointer (oj, sen, alt): the plan entries of a flattened embedded pointer go
+  /-- C15-nil-embedded-pointer (oj, sen, alt; repaired by /repo 272431d): the plan entries of a flattened embedded pointer go
   through `rv.FieldByIndex`, which panics on a nil pointer on the way -/
   embNilPanic : Bool
   /-- C15-tight-nil-pointer (oj, tight writers only): `tightSlice` and `tightMap` call `Elem()` on a
@@ -137,10 +137,14 @@ structure Dev where
   nestedOmit : Bool
   deriving DecidableEq, Repr, Inhabited
 
-/-- the code as it is now (/repo 9b6b623): leak, tight nil pointer and alt map nil are repaired
-(5f44527, 413ccf5, dda8eb5), and so is the nested omit that 8169704 had switched on (9b6b623) -/
-def Dev.current : Dev := ⟨false, true, true, true, false, false, false⟩
-/-- the trees 8169704 … 6b93c2a: as now, with the nested-omit regression of 8169704 -/
+/-- the code as it is now (/repo 272431d): leak, tight nil pointer and alt map nil are repaired
+(5f44527, 413ccf5, dda8eb5), so is the nested omit that 8169704 had switched on (9b6b623), and a nil
+embedded pointer contributes no member instead of panicking (272431d). What is left is by design
+of the code as it stands: exact tag keys and `[]byte` as a slice -/
+def Dev.current : Dev := ⟨false, true, true, false, false, false, false⟩
+/-- the trees 9b6b623 … b19f06c: as now, with the panic on a nil embedded pointer -/
+def Dev.before272431d : Dev := ⟨false, true, true, true, false, false, false⟩
+/-- the trees 8169704 … 6b93c2a: as `before272431d`, with the nested-omit regression of 8169704 -/
 def Dev.before9b6b623 : Dev := ⟨false, true, true, true, false, false, true⟩
 /-- the tree the first version of this module was written against (/repo ba8abfd) -/
 def Dev.before : Dev := ⟨true, true, true, true, true, true, false⟩
